@@ -232,3 +232,16 @@ Section InstanceGrammar.
     forall l1 id l2, L = l1 ++ OPick id :: l2 -> slot None l1 = None.
   Proof. destruct instance_accepted as (g' & G). exact (pick_only_when_slot_free _ _ _ _ _ _ G). Qed.
 End InstanceGrammar.
+
+(* a PUBLISH is surfaced only when the engine was past the handshake before the data call, or accepted the
+   CONNACK (which reset the inbound resolver) earlier in the same call: bindings made on an earlier
+   connection are never used (every state of the concrete engine; that the engine waits for the CONNACK
+   from the opening of a connection until a CONNACK is accepted is C07) *)
+Theorem instance_surface_needs_connack (cfg : config) (s : istate) now data pb :
+  In (ISurface pb) (i_step_ilog cfg s (EvData now data)) ->
+  s_st s = Connected \/ s_st s = PendingDisconnect \/
+  (s_st s = PendingConnack /\
+   exists l1 l2, i_step_ilog cfg s (EvData now data) = l1 ++ IConnack :: l2 /\ In (ISurface pb) l2).
+Proof.
+  exact (surface_needs_connack enc decoder decode_bytes ores ores_reset ires ires_reset ires_resolve validate_inbound_internal cfg s now data pb).
+Qed.
